@@ -307,6 +307,15 @@ class DoAttributes(Contract):
             if b:
                 s.obj(selfv).abs = DOATTR_S(S0)
                 s.writes.add((selfv.oid, "abs"))
+                # the private bookkeeping the decode leaves behind is whatever it is (maps built for MSM types, None otherwise;
+                # unknown-type flag): a caller must not branch on it in a way that matters - if it does, both ways are explored
+                from pyvc.values import STruthy, fresh_name
+                f = s.obj(selfv).fields
+                for nm in ("_satmap", "_cellmap"):
+                    if nm in f:
+                        f[nm] = STruthy(z3.Bool(fresh_name(nm.strip("_") + "_built")))
+                if "_unknown" in f:
+                    f["_unknown"] = SBool(z3.Bool(fresh_name("unknown_type")))
                 outs.append((s, None))
             else:
                 outs.append((s, RaiseExc(exc("RTCMTypeError"), "Error processing attribute")))
